@@ -290,7 +290,7 @@ def execute(cases_, tier, seed):
                        "schemars / serde_json are built without preserve_order, so parsed objects are BTreeMaps"]
     if n_capped:
         res.exhaustive = False
-    if len(cases_) > 20 and (n_variants < 500 or n_seed_runs < 500):
+    if not res.violations and (len(cases_) > 20 and (n_variants < 500 or n_seed_runs < 500)):   # a subject that breaks everything is reported through its violations, not as vacuity
         raise MachineryError("vacuity guard: variants=%d seed runs=%d" % (n_variants, n_seed_runs))
     return res
 
